@@ -31,11 +31,11 @@ ASSUMPTIONS = [
     'each n_body_tensors[key] has shape (n_qubits,)*len(key); keys contain only 0/1',
 ]
 OPEN_STATEMENTS = [
-    'spectrum invariance under rotate_basis by a unitary and composition rotate(R2) after rotate(R1) = rotate(R1 R2): '
+    'spectrum invariance under rotate_basis by a unitary (composition is proved: basis_change_compose): '
     'proved is basis_change_sound_fock (the rotated tensor denotes, in Module.End over Fock space, the operator with every '
     'ladder operator replaced by the rotated one, any R) and that for unitary R the rotated ladder operators satisfy the CAR '
     'again (rotated_ladder_car_unitary); not proved: that a CAR-preserving substitution is implemented by a unitary on Fock '
-    'space (hence equal spectra), and composition; '
+    'space (hence equal spectra); '
     'both checked by the Spec oracle (exact) and numpy eigvalsh at 1e-9',
     'get_interaction_operator / get_quadratic_hamiltonian / get_diagonal_coulomb_hamiltonian: no theorem (they compose '
     'normal_ordered, property C03, with a scatter loop); soundness and the round trip '
